@@ -476,8 +476,8 @@ def _collect_canary(key, sig, c, self_ty):
     params = []
     for nm, ty, slf in ps['params']:
         if slf:
-            if self_ty is None:
-                return
+            if self_ty is None or slf == '&mut self':
+                return        # &mut receivers (requires mention old(self)): no canary
             t = self_ty if slf in ('self', 'mut self') else '&' + self_ty
             params.append('self_: %s' % t)
         else:
